@@ -56,7 +56,7 @@ func (c20) Budget(tier string) runner.Budget {
 	if tier == "thorough" {
 		return runner.Budget{Plans: 30000, PlansPerProc: 15, Wall: 14 * time.Minute}
 	}
-	return runner.Budget{Plans: 800, PlansPerProc: 10, Wall: 100 * time.Second}
+	return runner.Budget{Plans: 4800, PlansPerProc: 30, Wall: 45 * time.Second}
 }
 
 func (c20) Describe() runner.Description {
@@ -74,10 +74,20 @@ func c20GenTx(r *simrt.Rand, i int) node.TxSpec {
 	if r.Chance(0.15) {
 		s.From = r.Intn(4)
 	}
+	own := s.From - 4 // account k mostly manages miner k, so that add-stake / refund / change-account find a registered miner
+	if own < 0 {
+		own = r.Intn(4)
+	}
+	pick := func() int {
+		if r.Chance(0.6) {
+			return own
+		}
+		return r.Intn(4)
+	}
 	switch x := r.Intn(100); {
 	case x < 38:
 		s.K = "apply"
-		s.Miner = r.Intn(4)
+		s.Miner = pick()
 		s.MType = byte(r.Intn(2))
 		s.Stake = []uint64{100, 399, 400, 401, 800, 1999, 2000, 2400}[r.Intn(8)]
 		if r.Chance(0.35) {
@@ -85,15 +95,18 @@ func c20GenTx(r *simrt.Rand, i int) node.TxSpec {
 		}
 	case x < 55:
 		s.K = "addstake"
-		s.Miner = r.Intn(5)
+		s.Miner = pick()
+		if r.Chance(0.1) {
+			s.Miner = 4 // never registered
+		}
 		s.Stake = uint64([]int{0, 1, 50, 400, 1600, 100000}[r.Intn(6)])
 	case x < 78:
 		s.K = "refund"
-		s.Miner = r.Intn(4)
+		s.Miner = pick()
 		s.Amount = []string{"1", "100", "400", "401", "2000", "18446744073709551615", "999999", "0"}[r.Intn(8)]
 	case x < 88:
 		s.K = "chacct"
-		s.Miner = r.Intn(4)
+		s.Miner = pick()
 		s.Acct = r.Intn(8)
 	default:
 		s.K = "xfer"
